@@ -6,7 +6,7 @@ import json
 from . import celx, evalx, hostfns
 from .core import Ctx, read_dump, pmap
 
-INV = "SPECIFICATION Spec\nINVARIANT MethodIsFunction\nINVARIANT Absorbed\nINVARIANT Strict\nINVARIANT OverrideOnlyWhenSupplied\nCHECK_DEADLOCK FALSE\n"
+INV = "SPECIFICATION Spec\nCONSTANT TIER = \"%s\"\nINVARIANT MethodIsFunction\nINVARIANT Absorbed\nINVARIANT Strict\nINVARIANT OverrideOnlyWhenSupplied\nCHECK_DEADLOCK FALSE\n"
 CONFIGS = [(k, s) for k in ("module", "nested", "lambda", "object") for s in ("list", "dict")]
 
 
@@ -56,7 +56,7 @@ def _replay(item):
 
 
 def run(ctx: Ctx) -> int:
-    r = ctx.tlc("MC_C14", INV, dump=True, name="call shapes x absorbing contexts x override")
+    r = ctx.tlc("MC_C14", INV % ctx.tier, dump=True, name="call shapes x absorbing contexts x override")
     states = [s for s in read_dump(r.dump) if not (s["prog"]["k"] == "lit")]
     items = [(s["prog"], s["ovr"], s["exp"], s["calls"]) for s in states]
     nobs = 0
